@@ -80,6 +80,7 @@ func genC10(m *M, histories, length int) {
 			case 49:
 				m.Order()
 				m.Lengths()
+				m.Ciphersuite()
 			case 50:
 				m.SDecodeForm(sr, "bytes", be32(bigN)) // rejected
 				m.SDecodeForm(sr, "unmarshal", m.randBytes(31))
